@@ -12,6 +12,9 @@ pub enum Case {
     Date(u64),
     Itoa(u64),
     Hex(u64),
+    /// a call history on one thread: the first timestamp, then signed steps — the result of a call must not depend on
+    /// the calls before it (a cached date part, a reused buffer)
+    DateSeq(u64, Vec<i64>),
 }
 
 pub const END_OF_9999: u64 = 253402300799;
@@ -80,7 +83,7 @@ fn interesting_ints() -> Vec<u64> {
 impl Property for C20 {
     type Case = Case;
     const ID: &'static str = "C20";
-    const RULE: &'static str = "enumerated: first second of every day 0..=2932896, every second of day on 40 days (leap days, century borders), itoa/hexized for all n<10^6 and 10^k±1, 16^k±1, d·10^k, d·10^k+(10^k−1); generated: uniform and digit-length-biased timestamps in [0, 253402300799] and 64-bit integers. Oracle: own civil-from-days + (days+4) mod 7, cross-checked against chrono and httpdate; std formatting. Non-trivial = every case (each is a distinct input whose rendering is compared character by character); distinctness by input value.";
+    const RULE: &'static str = "enumerated: first second of every day 0..=2932896, every second of day on 40 days (leap days, century borders), itoa/hexized for all n<10^6 and 10^k±1, 16^k±1, d·10^k, d·10^k+(10^k−1); generated: uniform and digit-length-biased timestamps in [0, 253402300799] and 64-bit integers; call histories on one thread (a timestamp, then 1–11 signed steps of seconds, hours, a day ± 1 s, months, anything: a result must not depend on the calls before it). Oracle: own civil-from-days + (days+4) mod 7, cross-checked against chrono and httpdate; std formatting. Non-trivial = every case (each is a distinct input whose rendering is compared character by character); distinctness by input value.";
     const ASSUMPTIONS: &'static [&'static str] = &[
         "std integer formatting (to_string, {:016x}) is correct",
         "the oracle's civil-from-days is correct (cross-checked with chrono and httpdate on a sample every run)",
@@ -90,7 +93,7 @@ impl Property for C20 {
         C20
     }
     fn n_cases(&self, tier: Tier) -> u64 {
-        tier.pick(600_000, 40_000_000)
+        tier.pick(1_500_000, 40_000_000)
     }
     fn chunk(&self, tier: Tier) -> u64 {
         tier.pick(50_000, 1_000_000)
@@ -102,6 +105,14 @@ impl Property for C20 {
             1 => (0u64..=2932896, 0u64..86400).prop_map(|(d, s)| Case::Date(d * 86400 + s)),
             2 => biased_u64.clone().prop_map(Case::Itoa),
             2 => biased_u64.prop_map(Case::Hex),
+            2 => ((0u64..=2932896, prop_oneof![Just(0u64), Just(1), Just(86399), 0u64..86400]), proptest::collection::vec(prop_oneof![
+                    3 => prop_oneof![Just(1i64), Just(-1), Just(59), Just(-60), Just(3600), Just(-3600)],
+                    4 => prop_oneof![Just(86399i64), Just(-86399), Just(86400), Just(-86400), Just(86401), Just(-86401), Just(43200), Just(-43200)],
+                    2 => -200_000i64..200_000,
+                    1 => -40_000_000i64..40_000_000,
+                    1 => any::<i64>().prop_map(|x| x % (END_OF_9999 as i64)),
+                ], 1..12))
+                .prop_map(|((d, sec), steps)| Case::DateSeq(d * 86400 + sec, steps)),
         ]
         .boxed()
     }
@@ -119,6 +130,18 @@ impl Property for C20 {
             Case::Hex(n) => {
                 obs.label("hex");
                 check_hex(*n, obs)
+            }
+            Case::DateSeq(first, steps) => {
+                obs.label("date-history");
+                let mut ts = (*first).min(END_OF_9999);
+                check_date(ts, obs);
+                for d in steps {
+                    ts = (ts as i128 + *d as i128).clamp(0, END_OF_9999 as i128) as u64;
+                    obs.evals += 1;
+                    check_date(ts, obs);
+                    // and the numbers the same code base renders next to dates on the wire
+                    check_itoa(ts, obs);
+                }
             }
         }
     }
